@@ -12,24 +12,24 @@ sys.path.insert(0, VERIF)
 ALL = ["C%02d" % i for i in range(1, 21)]
 NA = {}
 TECH = {
-    "C01": "CFG typestate (warn-or-converged), def-use provenance of the stopping threshold, sibling protocol cross-check; operator-shape domain and Hermitian-flag truth table of composed operators; substitution-layer rules; discarded-result / None-by-truthiness lints; fall-back discipline of composed operators (capability-guard dominance), un-swap decided by path conditions",
-    "C02": "autograd-Function contract rules over ast (arity, None slots, create_graph, allow_unused, option splat, layout), Hermitian-adjoint idiom, sign parity; saved-output identity (AC12), abstract dictionary semantics of the option merge, substitution-layer rules; taint analysis: cotangent values never steer control flow (AC16); normal-equation rule of the inner solve",
+    "C01": "CFG typestate (warn-or-converged), def-use provenance of the stopping threshold, sibling protocol cross-check; operator-shape domain and Hermitian-flag truth table of composed operators; substitution-layer rules; discarded-result / None-by-truthiness lints; fall-back discipline of composed operators (capability-guard dominance), un-swap decided by path conditions; divisor guards of the Krylov recurrences replace exact zeros only (C01-G); exact element-wise test of the zero right-hand-side shortcut",
+    "C02": "autograd-Function contract rules over ast (arity, None slots, create_graph, allow_unused, option splat, layout), Hermitian-adjoint idiom, sign parity; saved-output identity (AC12), abstract dictionary semantics of the option merge, substitution-layer rules; taint analysis: cotangent values never steer control flow (AC16); normal-equation rule of the inner solve; segment lengths of backward's starred results on every path (AC1-L); Krylov-loop typestate / threshold / divisor-guard rules of the inner solve (LS-*); exact zero-shortcut test",
     "C03": "CFG typestate + path-wise value numbering (returned-is-checked, zero-residual shortcut), best-point bookkeeping; truth table of the termination predicate with free atoms; all-element-norm rule of the termination test, tolerance-guard lint",
-    "C04": "autograd-Function contract rules, implicit-function-theorem system shape, useobjparams pairing; truth table of the identical-parameters predicate, refresh-source rule, substitution-layer rules; cotangent-value taint rule (AC16), normal-equation rule of the inner solve, dispatch-over-kinds and restore-pairing rules of the substitution layer",
-    "C05": "non-commutative word normalisation of the generalised-eigenproblem reduction and of tallqr, slice/table agreement, Rayleigh-Ritz structure of Davidson, Gram/factor pairing of svd; conjugated-transpose idiom and operator algebra of linop.py; slice bounds as polynomials",
-    "C06": "autograd-Function contract of symeig_torchfcn / degen_symeig, polynomial normal form of the A and M pull-back cotangents, projector branch cross-check, dense backward structure; substitution-layer rules, abstract dictionary semantics of the option merge; cotangent-value taint rule (AC16) with the diagnostic-arm idiom, normal-equation rule of the inner solve",
-    "C07": "exact rational arithmetic on the tableau literals: Butcher order conditions by rooted trees; role/taint check of the steppers; abstract lookup semantics of get_method, tolerance provenance, conversions as opaque atoms",
+    "C04": "autograd-Function contract rules, implicit-function-theorem system shape, useobjparams pairing; truth table of the identical-parameters predicate, refresh-source rule, substitution-layer rules; cotangent-value taint rule (AC16), normal-equation rule of the inner solve, dispatch-over-kinds and restore-pairing rules of the substitution layer; Krylov-loop typestate / threshold / divisor-guard rules of the inner solve (LS-*)",
+    "C05": "non-commutative word normalisation of the generalised-eigenproblem reduction and of tallqr, slice/table agreement, Rayleigh-Ritz structure of Davidson, Gram/factor pairing of svd; conjugated-transpose idiom and operator algebra of linop.py; slice bounds as polynomials; single-producer rule for degen_symeig's eigenpairs (every reaching definition is torch.linalg.eigh)",
+    "C06": "autograd-Function contract of symeig_torchfcn / degen_symeig, polynomial normal form of the A and M pull-back cotangents, projector branch cross-check, dense backward structure; substitution-layer rules, abstract dictionary semantics of the option merge; cotangent-value taint rule (AC16) with the diagnostic-arm idiom, normal-equation rule of the inner solve; Krylov-loop typestate / threshold / divisor-guard rules of the inner solve (LS-*)",
+    "C07": "exact rational arithmetic on the tableau literals: Butcher order conditions by rooted trees; role/taint check of the steppers; abstract lookup semantics of get_method, tolerance provenance, conversions as opaque atoms; partial evaluation of the explicit stepper on the callers' concrete tableaux (specialising evaluator, loops over constants unrolled, user function an uninterpreted atom)",
     "C08": "autograd-Function contract rules, alias (taint) analysis for in-place updates of apply outputs; time-reversal case split of the adaptive solver, substitution-layer rules; cotangent-value taint rule (AC16), provenance of pull-back inputs (AC13), evaluator found by role",
     "C09": "layout agreement between wrappers and Function.forward, sibling decoration, dispatch exhaustiveness; one-context rule, one-copy-per-slot rule, identity-keyed de-duplication",
     "C10": "who-may-call table, install/restore pairing on a CFG with exceptional edges (must-pass-through in finally), with-only use; truth tables of the snapshot/restore traversal criteria over the dtype domain; copy-protocol rule",
-    "C11": "capability-guard dominance (CFG dominators), per-class cache rule, validation dominance, table agreement of parameter names; capability properties vs __new__ flags, H-wrapping rule",
+    "C11": "capability-guard dominance (CFG dominators), per-class cache rule, validation dominance, table agreement of parameter names; capability properties vs __new__ flags, H-wrapping rule; in-place receivers that are an operand's product result",
     "C12": "polynomial normal form of the affine node/weight map, index-set/pairing analysis of the accumulation loop, substitution table; tolerance-guard lint",
     "C13": "keyword-swallow rule, isinstance-after-coercion reaching definitions, negative-count slicing, Leibniz sign/role check; abstract dictionary semantics of the option merge, zero-filler shape/dtype/device rule; cotangent-value taint rule (AC16), provenance of pull-back inputs (AC13)",
     "C14": "polynomial normal form: both evaluation branches equal the Hermite / linear interpolant; mode-table agreement; shape domain for value extrapolation; None-by-truthiness with inter-procedural optional-ness",
-    "C15": "symbolic shape domain exhaustive over rank x dim x keepdim; interval analysis of stores; exact per-interval weights; tolerance-guard lint, import-time tensor constants",
-    "C16": "unused-parameter rule, sampler protocol cross-check, linear trip counts, autograd contract; TensorPacker tiling rule, substitution-layer rules; symbolic chain states with a Metropolis oracle, cotangent-value taint rule (AC16)",
+    "C15": "symbolic shape domain exhaustive over rank x dim x keepdim; interval analysis of stores; exact per-interval weights; tolerance-guard lint, import-time tensor constants; state-holder table incl. in-place updates through a local view of an attribute",
+    "C16": "unused-parameter rule, sampler protocol cross-check, linear trip counts, autograd contract; TensorPacker tiling rule, substitution-layer rules; symbolic chain states with a Metropolis oracle, cotangent-value taint rule (AC16); samples-by-value rule (a step that works in place returns the same object)",
     "C17": "validation dominance, shape roles, cache-key coverage (table agreement), autograd contract; refresh-source and unconditional connect_graph rules, substitution-layer rules",
-    "C18": "dispatch discipline: who-subscripts-tables, lower-case keys, lower-cased pre-dispatch typestate, call contract, no-grad context; abstract lookup / merge semantics over symbolic dictionaries, method-kind truth table, catch-all rule",
+    "C18": "dispatch discipline: who-subscripts-tables, lower-case keys, lower-cased pre-dispatch typestate, call contract, no-grad context; abstract lookup / merge semantics over symbolic dictionaries, method-kind truth table, catch-all rule; exact element-wise test of the zero right-hand-side shortcut that bypasses the selected method",
     "C19": "reference-cycle idioms: outputs on ctx, closures capturing self stored on self, self-referential closures; layout-helper-keeps-no-tensors rule",
     "C20": "traversal agreement of sibling functions, fresh-copy effect analysis, rejection dominance; copy-protocol rule; abstract round trip over nested containers incl. list / dict subclasses with an instance dictionary",
 }
